@@ -34,6 +34,9 @@ type joseSigning struct {
 
 func (m *Machine) nativeMethod(typeName, method string) Value {
 	return Native{func(m *Machine, args []Value) Value {
+		if typeName == "verif.opaque" {
+			m.unsupported("method %s called on an opaque (havoc'd) interface value %v", method, args[0].(Native).V)
+		}
 		st := args[0].(Native).V.(*joseSigning)
 		const fin = "github.com/dadrus/heimdall/internal/rules/mechanisms/finalizers"
 		switch typeName + "." + method {
